@@ -1,6 +1,39 @@
 (* C07 - the lexer agrees with the PICO-8/Lua lexical grammar.  Property theorems only; proofs live in
-   Proofs/LexerProofs.v, Proofs/LexerInv.v. *)
-From PV Require Import Base.Prelude Generated.T_lexer Model.Lexer Spec.LuaLex Proofs.LexerProofs Proofs.LexerInv.
+   Proofs/Lexer{Proofs,Inv,Spec,Str,Num,Agree,Main}.v.
+   Model: Model/Lexer.v (mirror of pico8/lua/lexer.py over the REGENERATED matcher table, symbol list,
+   keyword list and escape tables of Generated/T_lexer.v).  Reference: Spec/LuaLex.v.  holds_C07 /
+   tok_diff / diff_C07: Instances/HoldsC07.v - the very predicate the extracted monitor evaluates on the
+   implementation's tokens; [observe] computes from a model token what the harness observes of a real one. *)
+From PV Require Import Base.Prelude Generated.T_lexer Model.Lexer Spec.LuaLex Instances.HoldsC07
+  Proofs.LexerProofs Proofs.LexerInv Proofs.LexerSpec Proofs.LexerNum Proofs.LexerAgree Proofs.LexerMain.
+
+(* THE property, for every byte string given as one chunk: if the source is in the dialect (the reference
+   lexer is defined on it) the model lexes it and its token list passes the monitor predicate - same
+   token boundaries, same class for every token, same decoded string bytes (TokString.value), same
+   numeric value (TokNumber.value, exact), same quote / long-bracket level, same line and column;
+   if the model raises, the source is outside the dialect. *)
+Theorem C07_lex_agrees : forall src, Forall byte src ->
+  match model_lex [src] with
+  | Ok ts => holds_C07 src (map observe ts) = true
+  | Err _ => holds_C07_error src = true
+  end.
+Proof. exact model_holds_C07. Qed.
+Print Assumptions C07_lex_agrees.
+
+(* the same, token by token *)
+Theorem C07_lex_agrees_tokens : forall src ss, Forall byte src -> spec_lex src = Some ss ->
+  exists ts, model_lex [src] = Ok ts /\ Forall2 (fun s t => tok_diff s (observe t) = 0) ss ts.
+Proof. exact lex_agrees. Qed.
+Print Assumptions C07_lex_agrees_tokens.
+
+(* one token: whatever the reference reads at the head of [s], the model reads the same extent from the
+   Normal state (in one or two calls of _process_token), with the same observable fields, at any position *)
+Theorem C07_step_agrees : forall s t rest l col,
+  Forall byte s -> crlf_only s = true -> spec_step s = Some (t, rest) -> s_raw t <> [] ->
+  exists tk, Step l col s tk rest /\ t_ext tk = s_raw t /\
+             tok_diff (at_pos t l col) (observe tk) = 0 /\ last (s_raw t) 0 <> 13.
+Proof. exact step_agrees. Qed.
+Print Assumptions C07_step_agrees.
 
 (* first match in the regenerated table order = longest match, for every input *)
 Theorem C07_symbols_longest : forall s, first_match symbols s = longest_match symbols s.
@@ -11,6 +44,13 @@ Print Assumptions C07_symbols_longest.
 Theorem C07_symbols_same_set : forall s, first_match symbols s = longest_match spec_symbols s.
 Proof. exact symbols_longest_spec. Qed.
 Print Assumptions C07_symbols_same_set.
+
+(* TokNumber.value on every numeral of the dialect (either letter case, empty integer part, fractions,
+   exponents) is the reference value, as an exact fraction *)
+Theorem C07_number_value : forall d n den,
+  spec_numeral d = Some (n, den) -> tok_value d = Ok (n, den) /\ 0 < den.
+Proof. exact number_value_agrees. Qed.
+Print Assumptions C07_number_value.
 
 (* nothing dropped, nothing duplicated: the extents of the tokens concatenate to the input, any chunking *)
 Theorem C07_cover : forall chunks ts, model_lex chunks = Ok ts -> concat (map t_ext ts) = concat chunks.
@@ -23,3 +63,27 @@ Theorem C07_positions : forall chunks ts i t,
   (t_line t, t_col t) = advance (0, 0) (concat (map t_ext (firstn i ts))).
 Proof. exact model_lex_positions. Qed.
 Print Assumptions C07_positions.
+
+(* ... and that position is the one Lua's line counting rule gives, on the dialect's line ends *)
+Theorem C07_positions_lua : forall bs l c, crlf_only bs = true -> spec_advance l c bs = advance (l, c) bs.
+Proof. exact spec_advance_eq. Qed.
+Print Assumptions C07_positions_lua.
+
+(* non-vacuity: sources of the dialect exercising the former defects; the reference is defined on them *)
+Example C07_nonvacuous_keyword_glyph :
+  option_map (map (fun t => (skind_code (s_kind t), s_raw t))) (spec_lex (bs_ "end" ++ [128] ++ bs_ " end"))
+  = Some [(5, bs_ "end" ++ [128]); (0, bs_ " "); (7, bs_ "end")].
+Proof. vm_compute. reflexivity. Qed.
+
+Example C07_nonvacuous_numbers :
+  option_map (map (fun t => (s_num t, s_den t))) (spec_lex (bs_ "0XA 0x.8 0B11 1e-2 >>>"))
+  = Some [(10, 1); (0, 1); (8, 16); (0, 1); (3, 1); (0, 1); (1, 100); (0, 1); (0, 1)].
+Proof. vm_compute. reflexivity. Qed.
+
+Example C07_model_on_examples :
+  match model_lex [bs_ "x=[[" ++ [10] ++ bs_ "k]] --c" ++ [13; 10] ++ bs_ "y='\x41'"] with
+  | Ok ts => map (fun t => (kind_code (t_kind t), tok_str_value t, t_line t, t_col t)) ts
+  | Err _ => []
+  end = [(5, bs_ "x", 0, 0); (8, bs_ "=", 0, 1); (3, bs_ "k", 0, 2); (0, bs_ " ", 1, 3); (2, bs_ "--c", 1, 4);
+         (1, [13; 10], 1, 7); (5, bs_ "y", 2, 0); (8, bs_ "=", 2, 1); (3, bs_ "A", 2, 2)].
+Proof. vm_compute. reflexivity. Qed.
